@@ -7,7 +7,7 @@ the port's MAC, or specific bytes of this very Discover."""
 from ..common import Report, finish
 from ..terms import C, ZERO, short, is_const
 from .dispatch import (analyse, OP, fail_obligations, F_ETH_SRC, F_REAL_SRC, frame_bytes, PORT_MAC, BCAST)
-from .frame_common import TOS
+from .frame_common import diagnostic_offsets, TOS
 
 
 def own_mac_byte(st, b, i):
@@ -85,6 +85,7 @@ def run(tier):
         for s in sums[region]:
             if s.op.contains(OP['hello']):
                 so = s.so
+                s.diag = diagnostic_offsets(fs.prog)
                 changed = [k for k, (w, t) in so.cells.items() if not unchanged_cell(s, k, w, t)]
                 rep.check(not changed, 'R03.4', region + '|hello-store', 'a received Hello modifies the interface record at offsets %s' % [k[1] for k in changed],
                           function='parseFrame', file='lltdResponder/lltdBlock.c')
@@ -104,6 +105,9 @@ def unchanged_cell(s, k, w, t):
     st = s.st
     if k[0]:
         return False
+    diag = getattr(s, 'diag', None)
+    if diag and all((k[1] + i) in diag for i in range(w)):
+        return True          # a diagnostics-only counter (only ever logged): writing it is not behaviour
     from ..terms import mk_byte
     from .frame_common import KNOWN, SEEN_COUNT, ICON_SIZE
     t = st.canon(t)
